@@ -96,8 +96,10 @@ func (n *node[K, V]) search(t *BTree[K, V], key K, height int) (V, bool) {
 
 // Put inserts a new value into the B-tree.
 func (t *BTree[K, V]) Put(key K, val V) {
+	if _, found := t.Get(key); !found {
+		t.n++
+	}
 	u := t.root.insert(t, key, val, t.height, false)
-	t.n++
 	if u == nil {
 		return
 	}
